@@ -225,3 +225,30 @@ Proof.
   - destruct H as [<-|[<-|[]]]; cbn -[Z.pow]; lia.
   - eexists. eexists. split; [reflexivity|]. discriminate.
 Qed.
+
+(* Non-vacuity of the interchangeability hypothesis: the same logical history on memory (ids
+   from 0 per bucket) and peewee (global ids from 1, the id of the deleted newest event is
+   issued again), with a tie in the start instants, replace and delete by corresponding ids
+   and an unambiguous replace_last. *)
+Example C02_nonvacuous_interchangeable :
+  let m := mkMeta 1 1 1 0 None 0 in
+  let e t d x := mkEvent None t d x in
+  mp_ok mem_init pw_init
+    [CreateBucket 1 m; InsertOne 1 (e 5 1 1); InsertOne 1 (e 5 0 2); Replace 1 0 (e 7 0 4); Delete 1 1;
+     InsertOne 1 (e 9 0 5); ReplaceLast 1 (e 9 3 6)]
+    [CreateBucket 1 m; InsertOne 1 (e 5 1 1); InsertOne 1 (e 5 0 2); Replace 1 1 (e 7 0 4); Delete 1 2;
+     InsertOne 1 (e 9 0 5); ReplaceLast 1 (e 9 3 6)].
+Proof.
+  unfold mp_ok. cbn. unfold same_content, is_live, evs_of, ident. cbn.
+  repeat (split; try discriminate; try reflexivity; try lia); try tauto.
+  - eexists. eexists. split; [reflexivity|]. cbn. tauto.
+  - eexists. eexists. split; [reflexivity|]. cbn. tauto.
+  - left. exists 0%nat. eexists. eexists. repeat split; reflexivity.
+  - left. exists 1%nat. eexists. eexists. repeat split; reflexivity.
+  - eexists. eexists. split; [reflexivity|discriminate].
+  - eexists. eexists. split; [reflexivity|discriminate].
+  - intros l l' [I1 M1] [I2 M2]. cbn in I1, I2.
+    destruct I1 as [<-|[<-|[]]], I2 as [<-|[<-|[]]]; try reflexivity; exfalso.
+    + specialize (M1 _ (or_intror (or_introl eq_refl))). cbn in M1. lia.
+    + specialize (M2 _ (or_intror (or_introl eq_refl))). cbn in M2. lia.
+Qed.
